@@ -128,6 +128,44 @@ func checkBounds(what string, b *geom.Bounds, wantLayout geom.Layout, r ref) err
 var std = []geom.Layout{geom.XY, geom.XYZ, geom.XYM, geom.XYZM}
 
 func genGeom(t *rapid.T, layouts []geom.Layout, depth int, floats int) *model.G {
+	g := genGeom0(t, layouts, depth, floats)
+	// rings closed the way measured data closes them: the last vertex returns to the first
+	// in x, y (and z), with an M (or further ordinates) of its own - often the largest
+	g.Walk(func(x *model.G) {
+		closeXY := func(r [][]model.F) {
+			if len(r) < 4 || len(r[0]) < 3 || !rapid.Bool().Draw(t, "closexy") {
+				return
+			}
+			n := 2
+			if x.Lay().ZIndex() >= 0 {
+				n = 3
+			}
+			last := append([]model.F{}, r[len(r)-1]...)
+			copy(last[:n], r[0][:n])
+			if len(last) > n && rapid.Bool().Draw(t, "closingmax") {
+				last[len(last)-1] = model.Of(1e6 + float64(len(r)))
+			}
+			r[len(r)-1] = last
+		}
+		switch x.Kind {
+		case model.Polygon:
+			for _, r := range x.C2 {
+				closeXY(r)
+			}
+		case model.MultiPolygon:
+			for _, p := range x.C3 {
+				for _, r := range p {
+					closeXY(r)
+				}
+			}
+		case model.LinearRing:
+			closeXY(x.C1)
+		}
+	})
+	return g
+}
+
+func genGeom0(t *rapid.T, layouts []geom.Layout, depth int, floats int) *model.G {
 	kinds := gen.AllKinds
 	if floats&gen.Infs != 0 { // every mode but bbox: GeoJSON cannot carry a LinearRing
 		kinds = append([]string{model.LinearRing}, gen.AllKinds...)
